@@ -218,6 +218,20 @@ pub fn generate(check: &str, tier: &str, seed: u64, run: u64) -> Case {
         _ => panic!("unknown check {}", check),
     };
     let mut program = program;
+    // some messages report it on their own channel when they are dropped without having been
+    // received (own random stream)
+    if matches!(check, "C09" | "C10" | "C06") {
+        let mut mrng = Rng::derive(seed, check, run, "msgdrop");
+        for th in program.threads.iter_mut() {
+            for op in th.iter_mut() {
+                if let Op::Send { c, v } = *op {
+                    if mrng.chance(1, 5) {
+                        *op = Op::SendBomb { c, v };
+                    }
+                }
+            }
+        }
+    }
     // FAULT: caught panics (own random stream: the programs themselves stay as they are)
     if matches!(check, "C01" | "C04" | "C05" | "C07" | "C08" | "C09" | "C10" | "C06" | "C16") {
         let mut frng = Rng::derive(seed, check, run, "caught");
